@@ -63,6 +63,7 @@ func scenarioC03(r *Run) {
 	g.PlainQER = true
 	g.DrawAvoid()
 	g.PDIOrders = true
+	g.ThreeQERs = true
 	runHistory(r, g, histCfg{prop: "C03", maxOps: 3 + r.Ch.Choose(12, "nops"), allowKill: true,
 		checkImage: func(ctx, cause string) { r.CheckBESSImage("C03", ctx, cause) },
 		beforeRestart: func() {
